@@ -193,6 +193,14 @@ def run_case(case, ctx):
         cfg = ctx.call("StingyConfigurator.from_json", cc.StingyConfigurator.from_json, json.loads(json.dumps(confgen.config_json(case["recipe"]))))
     else:
         cfg = recipes.fresh(case["recipe"])
+    how = random.Random(case["seed"] + 5).random()
+    if how < 0.12:
+        # the configurator a service works with is often a restored one (unpacked from its string, unpickled, deep-copied): same objective
+        import copy
+        import pickle
+        import puan.logic.plog as pg_
+        cfg = rng.choice([lambda c: pg_.from_b64(c.to_b64()), lambda c: pickle.loads(pickle.dumps(c)), copy.deepcopy])(cfg)
+        ctx.count("count:restored-configurator")
     v = adapters.validated(cfg)
     if v is None:
         raise monitor.OutOfScope()
